@@ -140,6 +140,9 @@ func c12ContentTypes(kind Kind, codecs string, thorough bool) []string {
 type c12Counts struct {
 	user, icept int
 	specs       []connect.Spec
+	// userSpecs: what Request.Spec() reports inside user code (unary and
+	// server-stream implementations receive a Request).
+	userSpecs []connect.Spec
 }
 
 type countI struct{ n *c12Counts }
@@ -173,6 +176,9 @@ func c12Handler(kind Kind, codecs string, counts *c12Counts) *connect.Handler {
 	}
 	return NewHandler(kind, func(ctx context.Context, s HStream) error {
 		counts.user++
+		if kind == KUnary || kind == KServer {
+			counts.userSpecs = append(counts.userSpecs, s.Spec())
+		}
 		for {
 			if _, err := s.Receive(); err != nil {
 				break
@@ -290,6 +296,12 @@ func c12Check(c *ev.Collector, k c12Case) {
 				viol("handler-spec", "wrong-spec", "interceptor saw Spec %+v, handler was built for %s %s", sp, Procedure, k.Kind)
 			}
 		}
+		for _, sp := range counts.userSpecs {
+			if sp.Procedure != Procedure || sp.StreamType != streamTypeOf(k.Kind) || sp.IsClient {
+				bad = true
+				viol("handler-spec", "wrong-user-spec", "user code saw Request.Spec() %+v, handler was built for %s %s", sp, Procedure, k.Kind)
+			}
+		}
 	}
 	if bad {
 		c.Outcome("violation")
@@ -357,6 +369,13 @@ func c12SpecAgreement(t *testing.T, c *ev.Collector) {
 							c.Violation("TestC12", "spec-agreement", "differs", tags, key, "%s: client saw %+v, handler saw %+v", key, cs, hs)
 							c.Outcome("violation")
 							return
+						}
+						for _, us := range hc.userSpecs {
+							if us != hs {
+								c.Violation("TestC12", "spec-agreement", "user-differs", tags, key, "%s: handler user code saw Request.Spec() %+v, interceptors saw %+v", key, us, hs)
+								c.Outcome("violation")
+								return
+							}
 						}
 						c.Outcome("spec-ok")
 					})
